@@ -52,47 +52,68 @@ def instAdds (whole l : Sent) (r raw : Option Sent) (var : Nat × Nat) (w : Opti
         | some w, some w' => some (.access w w')
         | _, _ => none) br
 
+/-- variable / raw body of a quantified compound -/
+def Sent.qvar : Sent → Nat × Nat
+  | .quant _ vi vs _ => (vi, vs)
+  | _ => (0, 0)
+def Sent.qraw : Sent → Option Sent
+  | .quant _ _ _ body => some body
+  | _ => none
+
+def Shape.isModalShape : Shape → Bool
+  | .op1 o => o.isModal
+  | _ => false
+
+/-- the groups of nodes a rule produces for compound `whole` (first component `l0`) at world `w`,
+    with the legality conditions on the witness constant `c` / witness world `wo` -/
+def witnessGroups (b : Branch) (whole l0 : Sent) (w : Option Nat) (c : Option (Nat × Nat)) (wo : Option Nat)
+    (r : Rule) : Option (List (List Node)) :=
+  match r.witness with
+  | .none =>
+      if c.isSome || wo.isSome then none
+      else mapOpt (instAdds whole l0 whole.rhs? whole.qraw whole.qvar w none) r.branches
+  | .newConst =>
+      match c with
+      | some (ci, cs) =>
+          if b.consts.contains (ci, cs) || wo.isSome then none
+          else mapOpt (instAdds whole (whole.unquantify ci cs) none whole.qraw whole.qvar w none) r.branches
+      | none => none
+  | .eachConst =>
+      match c with
+      | some (ci, cs) =>
+          if wo.isSome then none
+          else mapOpt (instAdds whole (whole.unquantify ci cs) none whole.qraw whole.qvar w none) r.branches
+      | none => none
+  | .newWorld =>
+      match wo, w with
+      | some w', some _ =>
+          if b.worlds.contains w' || c.isSome then none
+          else mapOpt (instAdds whole l0 none none whole.qvar w (some w')) r.branches
+      | _, _ => none
+  | .eachWorld =>
+      match wo, w with
+      | some w', some w0 =>
+          if !b.hasAccess w0 w' || c.isSome then none
+          else mapOpt (instAdds whole l0 none none whole.qvar w (some w')) r.branches
+      | _, _ => none
+
 namespace LogicData
 variable (L : LogicData)
 
-/-- the node groups a table rule produces on node `(s,d,w)` of branch `b`, with the legality
-    conditions on the witness -/
+/-- the rule of the table that applies to node `(s,d,w)` and the node groups it produces -/
 def ruleGroups (b : Branch) (s : Sent) (d : Option Bool) (w : Option Nat)
-    (c : Option (Nat × Nat)) (wo : Option Nat) : Option (Rule × List (List Node)) := do
-  let (sh, ng, whole) ← s.decomp
-  let r ← L.rule? ⟨sh, ng, d⟩
-  let l0 ← whole.lhs?
-  let var : Nat × Nat := match whole with | .quant _ vi vs _ => (vi, vs) | _ => (0, 0)
-  let raw : Option Sent := match whole with | .quant _ _ _ body => some body | _ => none
-  match r.witness with
-  | .none =>
-      -- (a quantifier rule without witness must not use `lhs`; the soundness side-check rejects it)
-      let l := l0
-      if c.isSome || wo.isSome then none else
-      let gs ← mapOpt (instAdds whole l whole.rhs? raw var w none) r.branches
-      some (r, gs)
-  | .newConst => do
-      let (ci, cs) ← c
-      if b.consts.contains (ci, cs) || wo.isSome then none else
-      let gs ← mapOpt (instAdds whole (whole.unquantify ci cs) none raw var w none) r.branches
-      some (r, gs)
-  | .eachConst => do
-      let (ci, cs) ← c
-      if wo.isSome then none else
-      let gs ← mapOpt (instAdds whole (whole.unquantify ci cs) none raw var w none) r.branches
-      some (r, gs)
-  | .newWorld => do
-      let w' ← wo
-      let w0 ← w
-      if b.worlds.contains w' || w' == w0 || c.isSome then none else
-      let gs ← mapOpt (instAdds whole l0 none none var w (some w')) r.branches
-      some (r, gs)
-  | .eachWorld => do
-      let w' ← wo
-      let w0 ← w
-      if !b.hasAccess w0 w' || c.isSome then none else
-      let gs ← mapOpt (instAdds whole l0 none none var w (some w')) r.branches
-      some (r, gs)
+    (c : Option (Nat × Nat)) (wo : Option Nat) : Option (Rule × List (List Node)) :=
+  match s.decomp with
+  | none => none
+  | some (sh, ng, whole) =>
+    match L.rule? ⟨sh, ng, d⟩, whole.lhs? with
+    | some r, some l0 =>
+        if sh.isModalShape && w.isNone then none
+        else
+          match witnessGroups b whole l0 w c wo r with
+          | some gs => some (r, gs)
+          | none => none
+    | _, _ => none
 
 def frameAllowed (r : FrameRule) : Bool := L.frameRules.contains r.name
 
@@ -106,67 +127,77 @@ def Branch.extend (b : Branch) (ns : List Node) (tick : Option Nat) : Branch :=
   { b with nodes := b.nodes ++ ns,
            ticked := match tick with | some n => if b.ticked.contains n then b.ticked else b.ticked ++ [n] | none => b.ticked }
 
-/-- Apply one step if it is a legal instance of the logic's rules. -/
-def applyStep (L : LogicData) (t : Tableau) : Step → Option Tableau
-  | .rule bi n c wo => do
-      let b ← t[bi]?
-      if b.closed then none else
+def closeB (b : Branch) : Branch := b.extend [.flag "closure"] none
+
+/-- the result of a frame rule on a branch, if legal -/
+def frameAdd (b : Branch) (r : FrameRule) (w1 w2 w3 : Nat) : Option Node :=
+  match r with
+  | .reflexive => if b.worlds.contains w1 then some (.access w1 w1) else none
+  | .transitive => if b.hasAccess w1 w2 && b.hasAccess w2 w3 then some (.access w1 w3) else none
+  | .symmetric => if b.hasAccess w1 w2 then some (.access w2 w1) else none
+  | .serial => if b.worlds.contains w1 && !b.worlds.contains w2 then some (.access w1 w2) else none
+
+/-- is node `nd` one of the identity/existence closers of logic `L` -/
+def LogicData.identCloses (L : LogicData) (nd : Node) : Bool :=
+  match nd with
+  | .sent (.op1 .neg (.pred p [x, y])) d _ =>
+      L.closesSelfIdNeg && p == Pred.identity && x == y && d != some false
+  | .sent (.op1 .neg (.pred p [_])) d _ =>
+      L.closesNonExist && p == Pred.existence && d != some false
+  | _ => false
+
+/-- the node the identity rule adds from identity node `ni` and predication node `np` -/
+def identAdd (ni np : Node) : Option Node :=
+  match ni, np with
+  | .sent (.pred q [pa, pb]) none w, .sent (.pred pr ps) none w' =>
+      if q != Pred.identity || pa == pb || w != w' then none
+      else if ps.contains pa then some (.sent (.pred pr (ps.map (Param.subst pb pa))) none w)
+      else if ps.contains pb then some (.sent (.pred pr (ps.map (Param.subst pa pb))) none w)
+      else none
+  | _, _ => none
+
+/-- Apply one step to open branch `b` (index `bi`) if it is a legal instance of the logic's rules. -/
+def applyAt (L : LogicData) (t : Tableau) (bi : Nat) (b : Branch) : Step → Option Tableau
+  | .rule _ n c wo =>
       match b.nodes[n]? with
-      | some (.sent s d w) => do
-          let (r, gs) ← L.ruleGroups b s d w c wo
-          match gs with
-          | [] => none
-          | g0 :: rest =>
+      | some (.sent s d w) =>
+          match L.ruleGroups b s d w c wo with
+          | some (r, g0 :: rest) =>
               let tick := if r.ticks then some n else none
               some (t.fork bi (b.extend g0 tick)
                       (rest.map fun g => { (b.extend g tick) with parent := some bi }))
+          | _ => none
       | _ => none
-  | .close bi s w => do
-      let b ← t[bi]?
-      if b.closed then none else
-      if L.closure.lookup (b.litSet L s w) == some true then
-        some (t.set bi (b.extend [.flag "closure"] none))
-      else none
-  | .closeIdent bi n => do
-      let b ← t[bi]?
-      if b.closed then none else
+  | .close _ s w =>
+      if L.closure.lookup (b.litSet L s w) == some true then some (t.set bi (closeB b)) else none
+  | .closeIdent _ n =>
       match b.nodes[n]? with
-      | some (.sent (.op1 .neg (.pred p [x, y])) d _) =>
-          if L.closesSelfIdNeg && p == Pred.identity && x == y && d != some false then
-            some (t.set bi (b.extend [.flag "closure"] none)) else none
-      | some (.sent (.op1 .neg (.pred p [_])) d _) =>
-          if L.closesNonExist && p == Pred.existence && d != some false then
-            some (t.set bi (b.extend [.flag "closure"] none)) else none
-      | _ => none
-  | .frame bi r w1 w2 w3 => do
-      let b ← t[bi]?
-      if b.closed || !L.frameAllowed r then none else
-      match r with
-      | .reflexive =>
-          if b.worlds.contains w1 then some (t.set bi (b.extend [.access w1 w1] none)) else none
-      | .transitive =>
-          if b.hasAccess w1 w2 && b.hasAccess w2 w3 then some (t.set bi (b.extend [.access w1 w3] none)) else none
-      | .symmetric =>
-          if b.hasAccess w1 w2 then some (t.set bi (b.extend [.access w2 w1] none)) else none
-      | .serial =>
-          if b.worlds.contains w1 && !b.worlds.contains w2 then some (t.set bi (b.extend [.access w1 w2] none)) else none
-  | .ident bi i p => do
-      let b ← t[bi]?
-      if b.closed || !L.closesSelfIdNeg then none else
+      | some nd => if L.identCloses nd then some (t.set bi (closeB b)) else none
+      | none => none
+  | .frame _ r w1 w2 w3 =>
+      if !L.frameAllowed r then none else
+      match frameAdd b r w1 w2 w3 with
+      | some nd => some (t.set bi (b.extend [nd] none))
+      | none => none
+  | .ident _ i p =>
+      if !L.closesSelfIdNeg || i == p then none else
       match b.nodes[i]?, b.nodes[p]? with
-      | some (.sent (.pred q [pa, pb]) none w), some (.sent (.pred pr ps) none w') =>
-          if q != Pred.identity || pa == pb || w != w' || i == p then none else
-          let new? : Option (List Param) :=
-            if ps.contains pa then some (ps.map (Param.subst pb pa))
-            else if ps.contains pb then some (ps.map (Param.subst pa pb))
-            else none
-          match new? with
-          | some ps' => some (t.set bi (b.extend [.sent (.pred pr ps') none w] none))
+      | some ni, some np =>
+          match identAdd ni np with
+          | some nd => some (t.set bi (b.extend [nd] none))
           | none => none
       | _, _ => none
-  | .quit bi name => do
-      let b ← t[bi]?
-      if b.closed then none else some (t.set bi (b.extend [.flag name] none))
+  | .quit _ name =>
+      if name == "closure" then none else some (t.set bi (b.extend [.flag name] none))
+
+def Step.branch : Step → Nat
+  | .rule b .. => b | .close b .. => b | .closeIdent b .. => b | .frame b .. => b | .ident b .. => b | .quit b .. => b
+
+/-- Apply one step if it is a legal instance of the logic's rules. -/
+def applyStep (L : LogicData) (t : Tableau) (s : Step) : Option Tableau :=
+  match t[s.branch]? with
+  | none => none
+  | some b => if b.closed then none else applyAt L t s.branch b s
 
 /-- replay a list of steps -/
 def replay (L : LogicData) : Tableau → List Step → Option Tableau
